@@ -27,6 +27,13 @@ def cmp (tbl : SigTable) (a b : Nat × Nat) : Ordering :=
     | .eq => compare a.2 b.2
     | .gt => .gt
 
+/-- `PartialOrd::partial_cmp` for `SigId`: defined only between recognised descriptors (the encoders use
+`Ord`, as C18 does; this is the other comparison the public type offers) -/
+def partialCmp (tbl : SigTable) (a b : Nat × Nat) : Option Ordering :=
+  match toId tbl a.1 a.2, toId tbl b.1 b.2 with
+  | some l, some r => some (compare l r)
+  | _, _ => none
+
 /-- stable insertion sort by a comparison (`sort_unstable_by` is modelled as *a* sort; the encoders
 only sort keys that were checked to be distinct, where every sort gives the same result) -/
 def insertBy {α} (le : α → α → Bool) (x : α) : List α → List α
